@@ -175,7 +175,13 @@ func (b *BFS[O]) Run(r *Run) BFSResult {
 						inst = b.rebuild(st.root, path)
 					}
 					lt++
+					root, stPath, curOp := st.root, path, op
+					done := InFlight(func() Case {
+						full := append(append([]O{}, stPath...), curOp)
+						return Case{Harness: b.Name, Config: cfg, Trace: J(Trace[O]{Root: root, Ops: full}), Msg: fmt.Sprintf("%v after %d earlier operations", curOp, len(stPath)), Step: len(stPath)}
+					})
 					f := safeApply(inst, op, true)
+					done()
 					if f != nil {
 						lv++
 						full := append(append([]O{}, path...), op)
